@@ -48,7 +48,7 @@ theorem frameInto_trace (cfg : Cfg) {t : TCfg} {f : Flags} (ht : t.IsIdentity f)
                       lineSize := (hdrOf i).lineSize } buf', buf') ∧
       specFrame (hdrOf i) raw buf = some buf' ∧ buf'.length = buf.length ∧
       Pending cfg i N r' [] dEnd bEnd ∧ r'.sub.caf = true ∧ r'.dec = dEnd ∧ avail r' = bEnd ∧ r'.remaining + 1 = N ∧
-      SameEnv r r' ∧ CachedLegal r' := by
+      SameEnv r r' ∧ CachedLegal r' ∧ r'.sub.cur = none := by
   obtain ⟨pend, hP, hdata⟩ := hR.pend
   obtain ⟨hsw, hsh, hsrl, hscaf⟩ := subNew_dims i
   obtain ⟨hrows, hswf⟩ := rows_new i
@@ -159,7 +159,7 @@ theorem frameInto_trace (cfg : Cfg) {t : TCfg} {f : Flags} (ht : t.IsIdentity f)
   obtain ⟨r2, buf', pend2, hrun2, hspec, hblen, hP2, hcur2, hse2, hca2⟩ := hbody
   obtain ⟨r3, hrun3, hP3, hsub3, hdec3, hav3, hrem3, hse3, _, hca3, _⟩ := finishDecoding_trace hP2 hcur2
   refine ⟨r3, buf', ?_, hspec, hblen, hP3, by rw [hsub3], hdec3, hav3, hrem3, hse2.trans hse3,
-    fun s0 hs0 => hca2 s0 (hca3 ▸ hs0)⟩
+    fun s0 hs0 => hca2 s0 (hca3 ▸ hs0), by rw [hsub3]; exact hcur2⟩
   unfold frameInto
   simp only [hinfo]
   rw [hR.flags, ht.out]
@@ -193,7 +193,7 @@ theorem nextFrameOp_ready (cfg : Cfg) {t : TCfg} {f : Flags} (ht : t.IsIdentity 
       specFrame (hdrOf i) raw (List.replicate (outLineSize t i f i.width * i.height) p) = some buf' ∧
       buf'.length = outLineSize t i f i.width * i.height ∧
       Pending cfg i N r' [] dEnd bEnd ∧ r'.sub.caf = true ∧ r'.dec = dEnd ∧ avail r' = bEnd ∧ r'.remaining + 1 = N ∧
-      SameEnv r r' ∧ CachedLegal r' := by
+      SameEnv r r' ∧ CachedLegal r' ∧ r'.sub.cur = none := by
   obtain ⟨pend, hP, hdata⟩ := hR.pend
   have hinfo : infoOf r = some i := hP.info
   have hcaf : r.sub.caf = false := by rw [hR.sub]; exact (subNew_dims i).2.2.2
@@ -201,17 +201,17 @@ theorem nextFrameOp_ready (cfg : Cfg) {t : TCfg} {f : Flags} (ht : t.IsIdentity 
     rcases hP.caf with ⟨_, _, h⟩ | ⟨h, _, _⟩
     · have := hP.hN; omega
     · rw [hcaf] at h; cases h
-  obtain ⟨r', buf', hrun, hspec, hbl, h3, h4, h5, h6, h7, h8, h9⟩ :=
+  obtain ⟨r', buf', hrun, hspec, hbl, h3, h4, h5, h6, h7, h8, h9, h10⟩ :=
     frameInto_trace cfg ht i hleg hW hH N raw dEnd bEnd r (List.replicate (outLineSize t i f i.width * i.height) p) hR hraw
       (by simp) (by simpa using hfit)
-  refine ⟨r', buf', ?_, hspec, by simpa using hbl, h3, h4, h5, h6, h7, h8, h9⟩
+  refine ⟨r', buf', ?_, hspec, by simpa using hbl, h3, h4, h5, h6, h7, h8, h9, h10⟩
   show (if !r.isReader then _ else nextFrameOp cfg t r p) = _
   simp only [hrd, Bool.not_true, Bool.false_eq_true, if_false]
   unfold nextFrameOp
   simp only [hinfo, callerBuf, hpb]
   rw [pendingBuf_none_eq hpb]
-  unfold nextFrameBuf
-  simp only [hrem, if_false, hcaf, Bool.false_eq_true, hR.flags, hrun]
+  rw [nextFrameBuf_inside cfg t r _ hrem hcaf]
+  simp only [hR.flags, hrun]
 
 /-! ## `read_until_image_data` and `read_info` -/
 
